@@ -38,8 +38,9 @@ class SchedLock:
     """threading.Lock look-alike whose waiting is visible to the
     scheduler."""
 
-    def __init__(self, sched):
+    def __init__(self, sched, pending_binary=False):
         self.sched = sched
+        self.pending_binary = pending_binary
         self.owner = None
 
     def acquire(self, blocking=True, timeout=-1):
@@ -63,8 +64,9 @@ class SchedLock:
 class World:
     """A fresh threaded server with one client connected to '/' and '/b'."""
 
-    def __init__(self, sched):
+    def __init__(self, sched, pending_binary=False):
         self.sched = sched
+        self.pending_binary = pending_binary
         self.d = D.SyncDrive(async_handlers=False, autojoin=False,
                              namespaces=['/', '/b'])
         d = self.d
@@ -87,6 +89,12 @@ class World:
         self.t.connect('/b')
         self.sid = self.t.sids['/']
         self.sid_b = self.t.sids['/b']
+        if pending_binary:
+            # the client has sent the header of a binary event but not all
+            # of its attachments when the terminations begin
+            from vlib import refcodec as RR
+            self.t.send_packet(RR.EVENT, '/', None, ['ev', b'a', b'b'],
+                               partial=2)
         if sched is not None:
             self.wrap()
 
@@ -163,13 +171,21 @@ def baseline_size():
     return G.measure(w.d.sio)
 
 
-def run_schedule(ctx, causes, choices, rng, bound, line_level, base):
+def run_schedule(ctx, causes, choices, rng, bound, line_level, base,
+                 pending_binary=False):
     sp = None
     if rng is not None:
         sp = rng.choice([None, 0.02, 0.05, 0.1, 0.25])
+        # (only with actors that feed no client frames: a frame sent while
+        # attachments are owed would be taken for the attachment)
+        pending_binary = pending_binary or (
+            rng.random() < 0.3 and
+            set(causes) <= {'server_disconnect', 'transport_loss'})
     sched = SC.ThreadScheduler(choices=choices, rng=rng,
                                preemption_bound=bound, switch_prob=sp)
-    w = World(sched)
+    w = World(sched, pending_binary)
+    if pending_binary:
+        ctx.count('schedules_with_partial_binary_packet')
     for c in causes:
         sched.spawn(c, w.actor(c))
     if line_level:
@@ -185,7 +201,7 @@ def run_schedule(ctx, causes, choices, rng, bound, line_level, base):
            'labels': [[a, lbl] for a, lbl in sched.labels][-80:],
            'handler_calls': [list(h) for h in w.handler_calls],
            'gate_passed_by': len({a for a, _ in w.gate}),
-           'line_level': line_level}
+           'line_level': line_level, 'partial_binary_packet': pending_binary}
     if sched.aborted:
         wit['aborted'] = sched.aborted
         ctx.violation(None, 'schedule did not complete: %s' % sched.aborted,
@@ -434,13 +450,13 @@ def disable_lines():
     _line_state['on'] = False
 
 
-def explore_dfs(ctx, causes, bound, base, limit):
+def explore_dfs(ctx, causes, bound, base, limit, pending_binary=False):
     choices = []
     n = 0
     while choices is not None and n < limit and not ctx.out_of_time() \
             and not ctx.too_many_violations():
         trace, res = run_schedule(ctx, causes, choices, None, bound, False,
-                                  base)
+                                  base, pending_binary)
         n += 1
         choices = SC.next_schedule(trace)
     return n, choices is None
@@ -470,6 +486,8 @@ def run(ctx):
     ctx.extra['exhaustive_pairs'] = {}
     # terminations racing with the client's own re-connection / events
     ctx.require('recon_schedules_run', 50)
+    if ctx.shard == 0:
+        ctx.require('schedules_with_partial_binary_packet', 20)
     ctx.extra['recon_scenarios'] = {}
     for i, (causes, bound) in enumerate(RECON_JOBS):
         if i % ctx.nshards != ctx.shard and ctx.nshards > 1:
@@ -478,6 +496,15 @@ def run(ctx):
                                     120 if ctx.tier == 'quick' else 8000)
         ctx.extra['recon_scenarios']['+'.join(causes)] = {
             'schedules': n, 'complete': complete}
+    # a half-received binary packet is pending while the client is terminated
+    for causes in (['server_disconnect', 'transport_loss'],):
+        if ctx.shard == 0 and not ctx.out_of_time():
+            n, complete = explore_dfs(ctx, causes, None, base,
+                                      150 if ctx.tier == 'quick' else 5000,
+                                      pending_binary=True)
+            ctx.extra['exhaustive_pairs']['+'.join(causes) +
+                                          ' (partial binary packet)'] = \
+                {'schedules': n, 'complete': complete}
     kline = ctx.shard * 10**6
     for i, (causes, bound) in enumerate(jobs):
         if i % ctx.nshards != ctx.shard and ctx.nshards > 1:
